@@ -66,7 +66,9 @@ class HList:
         self.items = list(items)
 
     def copy(self):
-        return HList(self.items)
+        h = HList(self.items)
+        h.is_set = getattr(self, 'is_set', False)
+        return h
 
 
 class HSeqList(HList):
